@@ -136,10 +136,10 @@ type event struct {
 	Wire     hx.B         `json:"wire"` // the real PackRR of the record (generic origin: the spec's octets)
 	Hk       []hkEntry    `json:"hk"`
 	Src      src          `json:"src"`
-	Alpha    bool         `json:"alpha"`              // informational; the trace spec decides on its own
-	Neg      bool         `json:"neg,omitempty"`      // negative probe: a generic rendering with a wrong stated length ...
-	Accepted bool         `json:"accepted"` // ... and whether NewRR accepted it
-	Gomis    *hx.Mismatch `json:"gomis,omitempty"`    // record mode: what the Go-side round trip saw; the driver reports it unless
+	Alpha    bool         `json:"alpha"`           // informational; the trace spec decides on its own
+	Neg      bool         `json:"neg,omitempty"`   // negative probe: a generic rendering with a wrong stated length ...
+	Accepted bool         `json:"accepted"`        // ... and whether NewRR accepted it
+	Gomis    *hx.Mismatch `json:"gomis,omitempty"` // record mode: what the Go-side round trip saw; the driver reports it unless
 	// the specification places the record outside the alphabet of its type (the harness does not know the alphabets)
 }
 
